@@ -31,6 +31,9 @@ def check(model: Model, rep: Report, tier: str):
     with rep.isolated():
         share_rule(rep, model, r2, "C04.D5", "end_time == start_time + duration in every definition (shared C01.R2): the span of D2 is computed from end times, and "
                                              "'everything FOLLOWED_BY the block starts after all of it has ended' reads them", only_rules={"C01.R2"})
+    from .c02 import l12
+    with rep.isolated():
+        l12(model, rep, "C04.D7")
     from .c03 import h5
     from ..resolve import CallGraph
     with rep.isolated():
